@@ -271,5 +271,12 @@ SPECS['print_options'] = {'name': 'print_options', 'prop': 'C06', 'type': 'struc
 _RANGES = ['A1:B2', 'C3:D4', 'B2:C3', 'XFD1048575:XFD1048576', 'A:B', '1:2']
 SPECS['merge_cells'] = {'name': 'merge_cells', 'prop': 'C06', 'type': 'structs::merge_cells::MergeCells', 'setter_generics': {'add_range': '::<&str>'}, 'fields': [
     ('add_range', 'get_range_collection', ('strchoice', _RANGES)), ('add_range#2', 'get_range_collection', ('strchoice', _RANGES))]}
+_CF = 'structs::conditional_formatting_rule::ConditionalFormattingRule'
+SPECS['cf_rule'] = {'name': 'cf_rule', 'prop': 'C06', 'type': _CF, 'setter_generics': {'set_text': '::<&str>'},
+    'write_args': ['$new:structs::differential_formats::DifferentialFormats'], 'read_args': ['$new:structs::differential_formats::DifferentialFormats', '$empty'], 'fields': [
+    ('set_type', 'get_type', ('enum', 'ConditionalFormatValues')), ('set_operator', 'get_operator', ('enum', 'ConditionalFormattingOperatorValues')), ('set_text', 'get_text', ('str',)),
+    ('set_priority', 'get_priority', ('u32', 1, 99)), ('set_percent', 'get_percent', ('bool',)), ('set_bottom', 'get_bottom', ('bool',)), ('set_rank', 'get_rank', ('u32', 0, 1000)),
+    ('set_stop_if_true', 'get_stop_if_true', ('bool',)), ('set_std_dev', 'get_std_dev', ('u32', 0, 3)), ('set_above_average', 'get_above_average', ('bool',)), ('set_equal_average', 'get_equal_average', ('bool',)),
+    ('set_time_period', 'get_time_period', ('enum', 'TimePeriodValues'))]}
 def harnesses_for(prop, tier):
     return [StructTrip(tier, sp) for sp in SPECS.values() if sp['prop'] == prop]
